@@ -186,7 +186,10 @@ fn walk<const D: usize>(hid: usize, rng: &mut Rng, out: &mut Out, steps: usize, 
         if (kind == 2 || kind == 4) && D < 3 { continue; }
         if kind == 3 && D < 3 { continue; }
         if kind == 5 && w.dt.number_of_vertices() > np + 6 { continue; }
-        let before = fingerprint(w.dt.tds());
+        // refused flips must leave the state unchanged: checked on a sample here (a fingerprint per
+        // try dominates the run time; the per-handle histories above check every refusal)
+        let sample = tries % 8 == 0;
+        let before = if sample { fingerprint(w.dt.tds()) } else { String::new() };
         let vs: Vec<_> = w.dt.tds().get_cell(ck).map(|c| c.vertices().to_vec()).unwrap_or_default();
         let (name, r) = match kind {
             0 => ("k2", catch(|| w.dt.flip_k2(FacetHandle::new(ck, a)).map_err(|_| ()))),
@@ -233,7 +236,7 @@ fn walk<const D: usize>(hid: usize, rng: &mut Rng, out: &mut Out, steps: usize, 
                 let post = w.cell_sets();
                 out.line(&format!("st {name} {} {} {}", j(&rr), j(&ii), js(&post)));
             }
-            Ok(Err(())) => { if fingerprint(w.dt.tds()) != before { refused_changed += 1; } }
+            Ok(Err(())) => { if sample && fingerprint(w.dt.tds()) != before { refused_changed += 1; } }
             Err(_) => { out.obs("panic", name); break; }
         }
     }
